@@ -3,6 +3,7 @@ package main
 import (
 	"encoding/hex"
 	"fmt"
+	"reflect"
 	"sort"
 	"go/token"
 	"strings"
@@ -217,7 +218,7 @@ func havocWalk(fr *frame, t types.Type, addr *value, depth int) {
 		}
 		for i := 0; i < ut.NumFields(); i++ {
 			f := ut.Field(i)
-			if f.Name() == "_" || isSyncType(f.Type()) {
+			if f.Name() == "_" || isSyncType(f.Type()) || notPersisted(ut.Tag(i)) {
 				continue
 			}
 			havocWalk(fr, f.Type(), &s[i], depth+1)
@@ -269,9 +270,15 @@ func havocWalk(fr *frame, t types.Type, addr *value, depth int) {
 	}
 }
 
+// notPersisted: fields tagged msg:"-" are transient by declaration (not part of the stored form).
+func notPersisted(tag string) bool {
+	return reflect.StructTag(tag).Get("msg") == "-"
+}
+
 func isSyncType(t types.Type) bool {
 	s := t.String()
-	return strings.HasPrefix(s, "sync.") || strings.HasPrefix(s, "*sync.")
+	// sync primitives, and time.Time (an opaque value: its internal words are not data)
+	return strings.HasPrefix(s, "sync.") || strings.HasPrefix(s, "*sync.") || s == "time.Time"
 }
 
 // deepEqualV: structural equality with nil == empty for slices and maps.
@@ -298,7 +305,7 @@ func deepEqualV(fr *frame, t types.Type, x, y value, depth int) value {
 		var r value = true
 		for i := 0; i < ut.NumFields(); i++ {
 			f := ut.Field(i)
-			if f.Name() == "_" || isSyncType(f.Type()) {
+			if f.Name() == "_" || isSyncType(f.Type()) || notPersisted(ut.Tag(i)) {
 				continue
 			}
 			r = andV(r, deepEqualV(fr, f.Type(), xs[i], ys[i], depth+1))
@@ -328,6 +335,14 @@ func deepEqualV(fr *frame, t types.Type, x, y value, depth int) value {
 					return false
 				}
 				r = andV(r, symEq(nil, tx.v, ty.v))
+				continue
+			}
+			if cx, ok := xs[i].(timeCell); ok {
+				cy, ok2 := ys[i].(timeCell)
+				if !ok2 {
+					return false
+				}
+				r = andV(r, deepEq(nil, cx.t, cy.t))
 				continue
 			}
 			if bx, ok := xs[i].(binCell); ok {
@@ -401,4 +416,25 @@ func init() {
 			return deepEqualV(fr, a.t, a.v, b.v, 0)
 		}
 	})
+}
+
+// closures of the repo that use reflection, replaced by type-directed equivalents
+var closureExternals = map[string]func(fr *frame, args []value, env []value) value{
+	// entitywrapper.RegisterWrapper: func() EntityI { return reflect.New(reflect.TypeOf(e).Elem()).Interface().(EntityI) }
+	"0chain.net/core/util/entitywrapper.RegisterWrapper$1$1": func(fr *frame, args []value, env []value) value {
+		e := env[0]
+		if p, ok := e.(*value); ok {
+			e = *p
+		}
+		it, ok := e.(iface)
+		if !ok || it.t == nil {
+			panic(unsupported("entitywrapper creator: unexpected captured entity"))
+		}
+		pt, ok := it.t.Underlying().(*types.Pointer)
+		if !ok {
+			panic(unsupported("entitywrapper creator: entity is not a pointer"))
+		}
+		var cell value = zero(pt.Elem())
+		return iface{t: it.t, v: &cell}
+	},
 }
